@@ -25,3 +25,9 @@ for _pid in ("C05", "C07", "C09", "C10"):
     p["theorems"] += (_RH_THS if _pid == "C05" else _RH_THS[:3])
 PROPS["C05"]["streams"] += [S("kf.C05-e", 4, 4, 1)]
 PROPS["C05"]["full_statement_status"] += "; rules with response_headers: Model.SysCacheRH (refinement of Model.SysCache at rh = [], rule_forbids_passes_body), stream syscrh; finding C05-e repaired (fix: 192a2d9)"
+
+# C06 reads stream sysc as well: encodings that PASS THROUGH (no recompression on the rule) and are stored, revalidated by 304 and replayed
+PROPS["C06"]["streams"] += [S("sysc", 6000, 80000)]
+PROPS["C06"]["rule"] += (" | sysc (see C05): origin answers labelled Content-Encoding: gzip / br on a rule without recompression, stored, revalidated by 304, replayed; oracle for C06: a response that the "
+                         "C05 / C07 history oracles judge wrong in body or framing, outside every listed class, for a resource whose origin answer carries a Content-Encoding")
+PROPS["C06"]["trivial_labels"] = list(PROPS["C06"].get("trivial_labels", [])) + ["no-origin", "unparsed"]
